@@ -15,7 +15,7 @@ func TestVerifSimOT(t *testing.T) {
 	const mon = "TestVerifSimOT"
 	lib.Mandatory("simot:chosen-received", "simot:swapped-rejected", "simot:wrong-choice-rejected", "simot:len-0", "simot:len-100",
 		"simot:equal-messages", "simot:choice-0", "simot:choice-1")
-	reps := lib.Scale(1, 12)
+	reps := lib.Scale(1, 4)
 	type cs struct {
 		gi, choice, l, rep int
 	}
